@@ -159,7 +159,11 @@ def main():
         r = json.load(open(a.replay))
         obls = _load(r['property'])
         o = next(x for x in obls if x.id == r['obligation'])
-        ok, desc = sx_replay(lambda sym: o.fn(sym, **r['param']), r['model'], r['choices'])
+        if o.raw:
+            rr = o.fn('quick', dict(r['param']))
+            ok = rr.get('verdict') == 'counterexample'; desc = '; '.join(v['what'] for v in rr.get('violations',[])) or rr.get('verdict')
+        else:
+            ok, desc = sx_replay(lambda sym: o.fn(sym, **r['param']), r['model'], r['choices'])
         print(("REPRODUCED: " if ok else "NOT REPRODUCED: ")+desc)
         sys.exit(1 if ok else 0)
 
